@@ -1018,6 +1018,7 @@ Proof.
     + intros t k. apply te_replace; auto.
 Qed.
 
+
 (* ---------- the guard is exact: each excluded pattern alone breaks "Cancel(id) = true iff a pending task was removed" ---------- *)
 
 Open Scope N_scope.
@@ -1031,11 +1032,20 @@ Definition stale_case (m : nat) (ls : list label) : Prop :=
   te_guard s0 ls = false /\ te_guard s0 (removelast ls) = true /\
   (forall e, ~ pending_task s 1 e) /\ hd EReject (log (step s (LTCancel 1))) = ETCancel 1 true.
 
+Lemma no_pending_of_waiting s k l : waiting s = l -> forallb (fun x => negb (optn_eqb (ekey x) (Some k))) l = true ->
+  forall e, ~ pending_task s k e.
+Proof.
+  intros W F e (x & Hx & _ & K & _). rewrite W in Hx. rewrite forallb_forall in F. specialize (F x Hx).
+  rewrite K in F. simpl in F. rewrite Nat.eqb_refl in F. discriminate.
+Qed.
+
 Lemma refuted_stale_identifier : stale_case 1 stale_bound /\ stale_case 0 stale_direct /\ stale_case 0 stale_discard.
 Proof.
-  repeat split; try (vm_compute; reflexivity);
-    intros e (x & Hx & _ & K & _); vm_compute in Hx;
-    repeat (destruct Hx as [Hx|Hx]; [subst x; discriminate K|]); exact Hx.
+  split; [|split]; (split; [vm_compute; reflexivity|]); (split; [vm_compute; reflexivity|]);
+    (split; [|vm_compute; reflexivity]).
+  - apply no_pending_of_waiting with (l := [mkE 0 10%N (Some 0)]); vm_compute; reflexivity.
+  - apply no_pending_of_waiting with (l := []); vm_compute; reflexivity.
+  - apply no_pending_of_waiting with (l := []); vm_compute; reflexivity.
 Qed.
 
 (* non-vacuity: a guarded schedule with a size bound that is never exceeded, a replacement while the old task is
@@ -1044,22 +1054,30 @@ Open Scope N_scope.
 Definition te_demo : list label :=
   [LAdd 5 (Some 1%nat); LAdd 7 (Some 2%nat); LWorker 0 0; LAdd 9 (Some 1%nat); LTCancel 2; LTCancel 2;
    LTick 10; LWorker 0 0; LWorker 0 0; LWorker 0 0; LWorker 0 0].
+Definition te_demo_log : list ev :=
+  [EStart 2; EDeliver 2 10; ESkip 0; ETCancel 2 false; ETCancel 2 true; ECancel 1 true 0;
+   EAdd 2 9 (Some 1%nat) 0; ECancel 0 false 0; EAdd 1 7 (Some 2%nat) 0; EAdd 0 5 (Some 1%nat) 0].
 Close Scope N_scope.
+
+Lemma pending_of_waiting s k x : In x (waiting s) -> ekey x = Some k -> memb (eid x) (dead s) = false ->
+  pending_task s k (eid x).
+Proof.
+  intros Hx K D. exists x. repeat split; auto. intros H. unfold memb in D.
+  assert (existsb (Nat.eqb (eid x)) (dead s) = true); [|congruence].
+  apply existsb_exists. exists (eid x). split; auto. apply Nat.eqb_refl.
+Qed.
 
 Lemma te_demo_guarded :
   let s0 := init 1 2 IfOwn true true in
   te_guard s0 te_demo = true /\
   (let s := run s0 (firstn 4 te_demo) in
      dead s = [0] /\ tmap s = [(1, 2); (2, 1)] /\ pending_task s 1 2 /\ pending_task s 2 1 /\ ~ pending_task s 1 0) /\
-  (let s := run s0 te_demo in
-     dead s = [1; 0] /\ started (log s) = [2] /\
-     log s = [EStart 2; EDeliver 2 10; ESkip 0; ETCancel 2 false; ETCancel 2 true; ECancel 1 true 0;
-              EAdd 2 9 (Some 1) 0; ECancel 0 false 0; EAdd 1 7 (Some 2) 0; EAdd 0 5 (Some 1) 0]%N) /\
+  (let s := run s0 te_demo in dead s = [1; 0] /\ started (log s) = [2] /\ log s = te_demo_log) /\
   te_guard s0 [LAdd 5%N (Some 1); LShutdown false true; LShutdown true true] = true.
 Proof.
-  split; [vm_compute; reflexivity|]. split; [|split; vm_compute; auto].
+  split; [vm_compute; reflexivity|]. split; [|split; [vm_compute; auto|vm_compute; reflexivity]].
   split; [vm_compute; reflexivity|]. split; [vm_compute; reflexivity|]. split; [|split].
-  - exists (mkE 2 9%N (Some 1)). vm_compute. repeat split; auto. intros [H|[]]; discriminate.
-  - exists (mkE 1 7%N (Some 2)). vm_compute. repeat split; auto. intros [H|[]]; discriminate.
+  - apply (pending_of_waiting _ 1 (mkE 2 9%N (Some 1))); vm_compute; auto.
+  - apply (pending_of_waiting _ 2 (mkE 1 7%N (Some 2))); vm_compute; auto.
   - intros (x & _ & _ & _ & D). apply D. vm_compute. auto.
 Qed.
